@@ -111,8 +111,9 @@ struct Session {
     bool early;     // construct IndexClassification, IndexHamiltonian and Symmetrizer before any prepare() call
     bool earlyHam, earlySymm;
     double chiRtol; // user-set ReduceResonanceTolerance for two-particle objects (<= 0: library default)
+    IndexClassification* earlyIdx; const Lattice* earlyIdxFor;   // declared by `earlyctor`, used by the next `index` on the same lattice
     bool stress;    // every prepare()/compute() call is issued twice, values are re-evaluated, objects are copied
-    Session() : L(new Lattice), Idx(0), Ham(0), Symm(0), S(0), H(0), DM(0), Ops(0), GFC(0), TPC(0), early(false), earlyHam(false), earlySymm(false), chiRtol(0), stress(false) {}
+    Session() : L(new Lattice), Idx(0), Ham(0), Symm(0), S(0), H(0), DM(0), Ops(0), GFC(0), TPC(0), early(false), earlyHam(false), earlySymm(false), chiRtol(0), earlyIdx(0), earlyIdxFor(0), stress(false) {}
 };
 
 static void dumpParts(const char* kind, unsigned i, unsigned j, FieldOperator& op) {
@@ -230,6 +231,8 @@ int main(int argc, char** argv) {
                 out << "o ok\n";
             } else if (cmd == "earlyctor") {
                 s.early = true;
+                // the index classification is declared NOW (possibly before all sites exist): it keeps a reference to the site map
+                s.earlyIdx = new IndexClassification(s.L->getSiteMap()); s.earlyIdxFor = s.L;
                 out << "o ok\n";
             } else if (cmd == "copy") {
                 // a copy is made and ONE of the two lattices is destroyed; work continues with the survivor
@@ -241,7 +244,8 @@ int main(int argc, char** argv) {
                 dumpLattice(*s.L);
             } else if (cmd == "index") {
                 int mode; is >> mode;
-                s.Idx = new IndexClassification(s.L->getSiteMap());
+                if (s.earlyIdx && s.earlyIdxFor == s.L) { s.Idx = s.earlyIdx; s.earlyIdx = 0; }
+                else s.Idx = new IndexClassification(s.L->getSiteMap());
                 if (s.early) {
                     // "declare everything first, prepare afterwards": the objects only keep references to each other
                     s.Ham = new IndexHamiltonian(s.L, *s.Idx); s.earlyHam = true;
@@ -440,6 +444,28 @@ int main(int argc, char** argv) {
                 out << "o chitab " << i << " " << j << " " << k << " " << l << " " << clear << " " << tab.size();
                 for (size_t q = 0; q < tab.size(); ++q) out << " " << cplxStr(tab[q]);
                 out << "\n";
+                {   // a longer table (67 entries: not a multiple of any small thread or rank count) against on-demand values
+                    TwoParticleGF Z(*s.S, *s.H, s.Ops->getAnnihilationOperator(i), s.Ops->getAnnihilationOperator(j),
+                                    s.Ops->getCreationOperator(k), s.Ops->getCreationOperator(l), *s.DM);
+                    if (s.chiRtol > 0) Z.ReduceResonanceTolerance = s.chiRtol;
+                    Z.prepare();
+                    std::vector<boost::tuple<ComplexType, ComplexType, ComplexType> > fz;
+                    std::vector<long> tz;
+                    for (long q = 0; q < 67; ++q) {
+                        // two thirds of the entries (incl. the last ones) lie where the disconnected part does not vanish
+                        long n1 = q % 9 - 4, n2 = (q / 9) % 9 - 4, n3 = q % 3 == 0 ? n1 : (q % 3 == 1 ? n2 : (q * 5) % 7 - 3);
+                        tz.push_back(n1); tz.push_back(n2); tz.push_back(n3);
+                        fz.push_back(boost::make_tuple(sp * RealType(2*n1+1), sp * RealType(2*n2+1), sp * RealType(2*n3+1)));
+                    }
+                    std::vector<ComplexType> tz_tab = Z.compute(false, fz, world);
+                    double maxrel = 0;
+                    for (size_t q = 0; q < fz.size() && q < tz_tab.size(); ++q) {
+                        ComplexType v = X(tz[3*q], tz[3*q+1], tz[3*q+2]);
+                        maxrel = std::max(maxrel, std::abs(tz_tab[q] - v) / (1.0 + std::abs(v)));
+                    }
+                    out << "o chilong " << i << " " << j << " " << k << " " << l << " " << int(X.isVanishing()) << " " << fz.size() << " "
+                        << tz_tab.size() << " " << hx::d(maxrel) << "\n";
+                }
                 if (clear) for (size_t q = 0; q < nt; ++q) {
                     // on-demand evaluation after the terms were purged: refusing is fine, returning another value is not
                     try {
